@@ -12,16 +12,26 @@ import (
 // also when the level condition uses a stateful function (count(), sigma(), ...): the
 // per-group state of a level expression must not be shared between groups.
 func VerifC06IsoAlert(v *vrt.T) {
-	lam := []func() *ast.LambdaNode{verifC06LambdaPositive, verifC06LambdaCount, verifC06LambdaPositiveAndCount}[v.Choose("lambda", 3)]
+	li := v.Choose("lambda", 4)
+	// 3: the stateful function sits in the reset condition: .crit(lambda: "v" > 0).critReset(lambda: count() > 1)
+	lam := []func() *ast.LambdaNode{verifC06LambdaPositive, verifC06LambdaCount, verifC06LambdaPositiveAndCount, verifC06LambdaPositive}[li]
 	mk := func(out *verifC06Out) edge.GroupedReceiver {
 		cfg := verifC01Cfg{anon: true, history: 2, augment: 2}
 		cfg.level[alert.Critical] = true
+		cfg.reset[alert.Critical] = li == 3
 		an := verifC01Node(cfg, &verifC01AlertSvc{}, &verifNopDiag{})
 		l := lam()
 		expr, err := stateful.NewExpression(l.Expression)
 		v.Assert(err == nil, "level expression compiles")
 		an.levels[alert.Critical] = expr
 		an.scopePools[alert.Critical] = stateful.NewScopePool(ast.FindReferenceVariables(l.Expression))
+		if li == 3 {
+			r := verifC06LambdaCount()
+			rexpr, err := stateful.NewExpression(r.Expression)
+			v.Assert(err == nil, "reset expression compiles")
+			an.levelResets[alert.Critical] = rexpr
+			an.lrScopePools[alert.Critical] = stateful.NewScopePool(ast.FindReferenceVariables(r.Expression))
+		}
 		verifC06Wire(&an.node, out)
 		return an
 	}
